@@ -179,7 +179,7 @@ mod imp {
         pub fn new(seed: u64) -> Self {
             Gen { rng: Rng::new(seed), next_tag: 11, leafs: vec![], mids: vec![], tops: vec![], vs: vec![], ws: vec![], type_rebound: false }
         }
-        fn fresh_tag(&mut self) -> u64 { let t = self.next_tag; self.next_tag += 1; t }
+        pub fn fresh_tag(&mut self) -> u64 { let t = self.next_tag; self.next_tag += 1; t }
         fn pick(&mut self, xs: &[String]) -> String { xs[self.rng.below(xs.len() as u64) as usize].clone() }
         fn leaf_rhs(&mut self, allow_closure: bool) -> Rhs {
             let r = self.rng.below(100);
@@ -650,10 +650,54 @@ mod imp {
         if mode == "repl" {
             let mut vm = aelys_driver::new_vm_with_config(Default::default(), Vec::new()).unwrap();
             let mut prelude = sess.prelude(&vm);
-            let ninputs = 2 + g.rng.below(6) as usize;
-            for i in 0..ninputs {
-                let n = 1 + g.rng.below(5) as usize;
-                let stmts = g.input(if i == 0 { n + 3 } else { n }, i > 0, native_rebind);
+            // what the session consists of: scripted inputs of two directed scenarios, then random inputs
+            enum Plan { Scripted(Vec<Stmt>), Random(bool), GcEvery, GcDefault, RebindToReusedIndex }
+            let mut plan: Vec<Plan> = Vec::new();
+            let df = |g: &mut Gen, name: &str, body: Vec<&str>| -> Stmt { let tag = g.fresh_tag(); Stmt::DefFn { name: name.to_string(), tag, body: body.iter().map(|x| x.to_string()).collect() } };
+            let call = |n: &str| Stmt::Call { name: n.to_string() };
+            let nm = |n: &str| Rhs::Name(n.to_string());
+            let flavour = g.rng.below(8);
+            let mut reuse_old: Option<MVal> = None;
+            if flavour == 0 {
+                // one function under two globals, the body sites of two units share a slot id, one global is rebound:
+                // the site of the rebound global must not run the entry that the other site has just written
+                g.leafs = vec!["l0".into(), "l1".into()]; g.vs = vec!["v0".into(), "v1".into()]; g.mids = vec!["m0".into(), "m1".into()];
+                let a = vec![df(&mut g, "l0", vec![]), df(&mut g, "l1", vec![]), Stmt::LetMut { name: "v0".into(), rhs: nm("l0") }, Stmt::LetMut { name: "v1".into(), rhs: nm("l0") },
+                             df(&mut g, "m0", vec!["v0"]), call("m0")];
+                let b = vec![df(&mut g, "m1", vec!["v1"]), Stmt::Assign { name: "v0".into(), rhs: nm("l1") }, call("m1"), call("m0")];
+                plan.push(Plan::Scripted(a)); plan.push(Plan::Scripted(b));
+            } else if flavour == 1 {
+                // a warmed body site, its callee rebound and collected, a new function allocated (collections at every
+                // safepoint) and bound to the same global -- if it got the heap index of the old callee, the site must
+                // still run the new function
+                g.leafs = vec!["l0".into(), "l1".into()]; g.vs = vec!["v0".into()]; g.mids = vec!["m0".into()];
+                let a = vec![df(&mut g, "l0", vec![]), df(&mut g, "l1", vec![]), Stmt::LetMut { name: "v0".into(), rhs: nm("l0") },
+                             call("l0"), call("l1"), call("l0"), df(&mut g, "m0", vec!["v0"]), call("m0")];
+                let b = vec![df(&mut g, "l0", vec![]), Stmt::Assign { name: "v0".into(), rhs: nm("l1") }];
+                let zs: Vec<String> = (0..6).map(|i| format!("z{}", i)).collect();
+                let c: Vec<Stmt> = zs.iter().map(|z| df(&mut g, z, vec![])).collect();
+                g.leafs.extend(zs);
+                plan.push(Plan::Scripted(a)); plan.push(Plan::GcEvery); plan.push(Plan::Scripted(b)); plan.push(Plan::Scripted(c));
+                plan.push(Plan::RebindToReusedIndex); plan.push(Plan::Scripted(vec![call("m0")])); plan.push(Plan::GcDefault);
+            }
+            let first_random = plan.is_empty();
+            let ninputs = (if first_random { 2 } else { 1 }) + g.rng.below(if first_random { 6 } else { 4 }) as usize;
+            for i in 0..ninputs { plan.push(Plan::Random(i == 0 && first_random)); }
+            let mut first_scripted = true;
+            for step in plan {
+                let stmts: Vec<Stmt> = match step {
+                    Plan::GcEvery => { aelys_runtime::verif::gc_mode_set(2, 0); continue; }
+                    Plan::GcDefault => { aelys_runtime::verif::gc_mode_set(0, 0); continue; }
+                    Plan::Scripted(st) => { if first_scripted { first_scripted = false; } st }
+                    Plan::RebindToReusedIndex => {
+                        let z = (0..6).map(|i| format!("z{}", i)).find(|z| reuse_old.is_some() && sess.table.get(z).copied() == reuse_old).unwrap_or_else(|| "z0".to_string());
+                        vec![Stmt::Assign { name: "v0".into(), rhs: Rhs::Name(z) }]
+                    }
+                    Plan::Random(first) => {
+                        let n = 1 + g.rng.below(5) as usize;
+                        g.input(if first { n + 3 } else { n }, !first, native_rebind)
+                    }
+                };
                 if stmts.is_empty() { continue; }
                 ncalls += stmts.iter().filter(|s| matches!(s, Stmt::Call { .. })).count();
                 let src = render(&stmts);
@@ -662,12 +706,14 @@ mod imp {
                 let mut ev = std::mem::take(&mut prelude);
                 let st = status_of(&r.class);
                 ev.extend(sess.events_for_input(&vm, &stmts, st != 0, None, None));
+                if flavour == 1 && reuse_old.is_none() { reuse_old = sess.table.get("l0").copied(); }
                 q_inputs.push(format!("[{}]", ev.join("; ")));
                 obs.push(obs_term(st, &parse_output(&r.output)));
                 spec_obs.push(obs_term(ss, &stags));
                 inputs_src.push(src);
                 if st != 0 || ss != 0 { break; }
             }
+            aelys_runtime::verif::gc_mode_set(0, 0);
         } else {
             // one program; "reload": compiled, serialised, deserialised, run in a fresh VM
             let n = 6 + g.rng.below(10) as usize;
@@ -726,6 +772,9 @@ fn main() {
         let handle = std::thread::Builder::new().stack_size(256 << 20).spawn(move || {
             let mut vm = aelys_driver::new_vm_with_config(Default::default(), Vec::new()).unwrap();
             for (i, p) in text.split("\n=====\n").enumerate() {
+                // `@gc every` / `@gc default`: collect at every safepoint from here on / as the VM decides
+                if p.trim() == "@gc every" { aelys_runtime::verif::gc_mode_set(2, 0); println!("{}\tgc-every", i); continue; }
+                if p.trim() == "@gc default" { aelys_runtime::verif::gc_mode_set(0, 0); println!("{}\tgc-default", i); continue; }
                 let r = if reload {
                     let mut cvm = aelys_driver::new_vm_with_config(Default::default(), Vec::new()).unwrap();
                     match imp::compile_like_repl(&mut cvm, p, opt) {
